@@ -34,11 +34,21 @@ pub mod reqwest {
     impl From<Error> for crate::acme_common::error::Error {
         #[verifier::external_body] fn from(e: Error) -> Self { unimplemented!() }
     }
+    // a parsed certificate, identified by its DER bytes
     pub struct Certificate { pub pem: Ghost<Seq<u8>> }
+    // the CERTIFICATE blocks a PEM file holds, in order (empty for a file that holds none)
+    pub uninterp spec fn pem_certs(content: Seq<u8>) -> Seq<Seq<u8>>;
     impl Certificate {
+        // parses one certificate: fails on a file without a (well-formed) certificate
         #[verifier::external_body]
         pub fn from_pem(pem: &Vec<u8>) -> (r: Result<Certificate, Error>)
-            ensures r matches Ok(c) ==> c.pem@ == pem@
+            ensures r matches Ok(c) ==> pem_certs(pem@).len() >= 1 && c.pem@ == pem_certs(pem@)[0]
+        { unimplemented!() }
+        // parses every CERTIFICATE block; a file without any yields an empty list, not an error
+        #[verifier::external_body]
+        pub fn from_pem_bundle(pem: &Vec<u8>) -> (r: Result<Vec<Certificate>, Error>)
+            ensures r matches Ok(v) ==> v@.len() == pem_certs(pem@).len()
+                && forall|i: int| 0 <= i < v@.len() ==> (#[trigger] v@[i]).pem@ == pem_certs(pem@)[i]
         { unimplemented!() }
     }
     pub mod header {
@@ -86,15 +96,15 @@ pub mod reqwest {
         }
         }
     }
-    pub struct ClientBuilder { pub roots: Ghost<Seq<Seq<u8>>>, pub insecure: Ghost<bool> }
+    pub struct ClientBuilder { pub roots: Ghost<Set<Seq<u8>>>, pub insecure: Ghost<bool> }
     impl ClientBuilder {
         #[verifier::external_body]
-        pub fn new() -> (r: ClientBuilder) ensures r.roots@ == Seq::<Seq<u8>>::empty(), !r.insecure@ { unimplemented!() }
+        pub fn new() -> (r: ClientBuilder) ensures r.roots@ == Set::<Seq<u8>>::empty(), !r.insecure@ { unimplemented!() }
         #[verifier::external_body]
         pub fn default_headers(self, h: header::HeaderMap) -> (r: ClientBuilder) ensures r == self { unimplemented!() }
         #[verifier::external_body]
         pub fn add_root_certificate(self, c: Certificate) -> (r: ClientBuilder)
-            ensures r.roots@ == self.roots@.push(c.pem@), r.insecure == self.insecure { unimplemented!() }
+            ensures r.roots@ == self.roots@.insert(c.pem@), r.insecure == self.insecure { unimplemented!() }
         // the two switches that disable verification: using them makes every later send unprovable
         #[verifier::external_body]
         pub fn danger_accept_invalid_certs(self, b: bool) -> (r: ClientBuilder)
@@ -106,9 +116,9 @@ pub mod reqwest {
         pub fn build(self) -> (r: Result<Client, Error>)
             ensures r matches Ok(c) ==> c.roots == self.roots && c.insecure == self.insecure { unimplemented!() }
     }
-    pub struct Client { pub roots: Ghost<Seq<Seq<u8>>>, pub insecure: Ghost<bool> }
+    pub struct Client { pub roots: Ghost<Set<Seq<u8>>>, pub insecure: Ghost<bool> }
     pub struct RequestBuilder {
-        pub roots: Ghost<Seq<Seq<u8>>>, pub insecure: Ghost<bool>,
+        pub roots: Ghost<Set<Seq<u8>>>, pub insecure: Ghost<bool>,
         pub is_post: Ghost<bool>, pub url: Ghost<Seq<char>>, pub body: Ghost<Seq<char>>,
     }
     impl Client {
@@ -130,7 +140,7 @@ pub mod reqwest {
         pub fn send(self, Tracked(w): Tracked<&mut World>) -> (r: Result<Response, Error>)
             requires
                 old(w).net.permit, //@C09.send_needs_limiter_pass
-                !self.insecure@ && self.roots@ == old(w).net.trust_roots, //@C18.send_trusted_client
+                !self.insecure@ && crate::http::roots_match(self.roots@, old(w).net.trust_roots), //@C18.send_trusted_client
                 self.is_post@ ==> (old(w).net.built matches Some(b) && b.1 == self.url@ && b.2 == self.body@), //@C04.body_bound_to_url
                 self.is_post@ ==> (old(w).net.latest_nonce matches Some(n) ==> old(w).net.built matches Some(b) && b.0 == n), //@C04.newest_nonce,C08.retransmission_uses_newest_nonce
             ensures
